@@ -81,6 +81,17 @@ class TheCheck(Check):
             for n in range(0, 8):
                 t = [Opt(b"T", take, True, 0, G.SECTION_ALL)]
                 ops.append(self.ac(t, 0, False, [Node("opt", b"T", [G.gen_str_arg(rng) for _ in range(n)])]))
+        # argument counts around and beyond 256: the count comparison must not be done modulo 2^8
+        # (a fixed-arity directive written with take + 256*k arguments is an offence); lines of
+        # ~520..1100 bytes, below MAX_LINESIZE
+        for take in (0, 1, 2, 3, 5, 254, G.TAKEALL):
+            wide = {take + 256, take + 512, 254, 255, 256, 257, 258}
+            if take not in (254, G.TAKEALL):
+                wide.add(take)
+            for n in sorted(wide):
+                t = [Opt(b"W", take, True, 0, G.SECTION_ALL), Opt(b"After", 0, True, 0, G.SECTION_ALL)]
+                args = [Arg(rng.choice([b"a", b"7", b"z"]), "bare") for _ in range(n)]
+                ops.append(self.ac(t, 0, False, [Node("opt", b"After"), Node("opt", b"W", args), Node("opt", b"After")]))
         # scopes: option allowed in {ALL, ROOT, A, B, A|B, A|ROOT} placed at root / in A / in B / in A>B
         A, B = 2, 4
         for secs in (0, 1, A, B, A | B, A | 1):
